@@ -129,10 +129,13 @@ def build_fields(doc):
     if np.any(region.dV <= 0):
         raise Discard("invalid-mesh")
     d = mesh.dim
+    # integer-typed point values (`values=0` instead of `0.0`): what a linear / bilinear form
+    # integrates does not depend on the point values at all
+    vkw = {"values": 0} if doc.get("seed", 0) % 4 == 0 else {}
     if fk in ("Field", "PlaneStrainAsField"):
-        f = fem.FieldContainer([fem.Field(region, dim=d)])
+        f = fem.FieldContainer([fem.Field(region, dim=d, **vkw)])
     elif fk == "Scalar":
-        f = fem.FieldContainer([fem.Field(region, dim=1)])
+        f = fem.FieldContainer([fem.Field(region, dim=1, **vkw)])
     elif fk == "PlaneStrain":
         f = fem.FieldContainer([fem.FieldPlaneStrain(region, dim=2)])
     elif fk == "Axi":
